@@ -179,3 +179,26 @@ Theorem C13_ghba_names : forall hf family addr rest rec more q qs, addr_ok famil
     spec_ptr rec (Some addr) (Z.of_nat (length addr)) family.
 Proof. exact ghba_names. Qed.
 Print Assumptions C13_ghba_names.
+
+(* hosts file, completeness of the merge (ares_hosts_file_add): the first line that mentions a
+   name contributes its address to what the name resolves to, later lines only add; and no
+   line is dropped - every line's address is found by the reverse lookup *)
+Theorem C13_hosts_first_mention : forall pre l post x,
+  In x (hl_hosts l) ->
+  (forall l' y, In l' pre -> In y (hl_hosts l') -> strcaseeq y x = false) ->
+  exists e, hosts_search_host (hosts_build (pre ++ l :: post)) x = Some e /\ In (hl_ip l) (he_ips e).
+Proof. exact hosts_first_mention. Qed.
+Print Assumptions C13_hosts_first_mention.
+
+Theorem C13_hosts_first_mention_node : forall pre l post x family port,
+  In x (hl_hosts l) ->
+  (forall l' y, In l' pre -> In y (hl_hosts l') -> strcaseeq y x = false) ->
+  (family = LEG_AF_UNSPEC \/ family = fst (hl_ip l)) ->
+  In (mkNode (fst (hl_ip l)) (snd (hl_ip l)) port 0) (spec_hosts_nodes (hosts_build (pre ++ l :: post)) x family port).
+Proof. exact hosts_first_mention_node. Qed.
+Print Assumptions C13_hosts_first_mention_node.
+
+Theorem C13_hosts_every_line : forall pre l post,
+  exists e, hosts_search_ip (hosts_build (pre ++ l :: post)) (hl_ip l) = Some e /\ In (hl_ip l) (he_ips e).
+Proof. exact hosts_every_line. Qed.
+Print Assumptions C13_hosts_every_line.
